@@ -14,6 +14,7 @@ Import ListNotations.
 Local Open Scope Z_scope.
 
 Definition ss_seq_max : Z := 2 ^ 40 - 1.
+Definition ss_two64 : Z := 2 ^ 64.     (* seq and next_seq are uint64_t *)
 
 Record ss_state := { ss_seq : Z; ss_next : Z; ss_freq : Z }.
 
@@ -27,12 +28,12 @@ Definition ss_init (freq start : Z) : ss_state :=
    if it is invoked, state afterwards) *)
 Definition ss_protect (s : ss_state) : option Z * option Z * ss_state :=
   let piv := ss_seq s in
-  let seq' := ss_seq s + 1 in
+  let seq' := (ss_seq s + 1) mod ss_two64 in
   if seq' >=? ss_seq_max then
     (* oscore_increment_sender_seq returns 0: goto error, nothing is sent *)
     (None, None, Build_ss_state seq' (ss_next s) (ss_freq s))
   else if seq' >? ss_next s then
-    let n := ss_next s + ss_freq s in
+    let n := (ss_next s + ss_freq s) mod ss_two64 in
     (Some piv, Some n, Build_ss_state seq' n (ss_freq s))
   else (Some piv, None, Build_ss_state seq' (ss_next s) (ss_freq s)).
 
